@@ -91,15 +91,29 @@ impl ProgressTracker for Obs {
 }
 
 pub fn make_style(template: &str, obs: &Arc<StdMutex<ObsShared>>, obs_text: &str) -> Result<ProgressStyle, String> {
-    if template.matches("{obs}").count() != 1 {
+    if template.matches("{obs}").count() + template.matches("{obs:").count() != 1 {
         return Err("harness: template must contain the observation key {obs} exactly once".into());
     }
-    // the template must stay inside the model-renderable family (the minimiser shrinks strings)
+    // the template must stay inside the model-renderable family (the minimiser shrinks strings):
+    // the five keys, plain or with one of the style attributes of `KEY_STYLES`
     let mut rest = template;
     while let Some(i) = rest.find(|c| c == '{' || c == '}') {
         let tail = &rest[i..];
-        match ["{obs}", "{msg}", "{prefix}", "{pos}", "{len}", "{ ", "{\t", "{\n"].iter().find(|k| tail.starts_with(**k)) {
-            Some(k) => rest = &tail[k.len()..],
+        if let Some(k) = ["{ ", "{\t", "{\n"].iter().find(|k| tail.starts_with(**k)) {
+            rest = &tail[k.len()..];
+            continue;
+        }
+        let mut matched = None;
+        for key in ["obs", "msg", "prefix", "pos", "len"] {
+            for st in std::iter::once("").chain(crate::gen::KEY_STYLES.iter().copied()) {
+                let form = format!("{{{key}{st}}}");
+                if tail.starts_with(&form) {
+                    matched = Some(form.len());
+                }
+            }
+        }
+        match matched {
+            Some(n) => rest = &tail[n..],
             None => return Err("harness: template outside the model-renderable family".into()),
         }
     }
@@ -772,6 +786,12 @@ impl Stage {
             "set_length" => pb.set_length(a),
             "unset_length" => pb.unset_length(),
             "inc_length" => pb.inc_length(a),
+            "set_style" if a / 2 % 2 == 1 => {
+                // through the builder of the iterator adaptor (`it.progress_with(pb).with_style(..)`)
+                use indicatif::ProgressIterator;
+                let it = std::iter::empty::<u8>().progress_with(pb.clone()).with_style(new_style.take().unwrap());
+                drop(it);
+            }
             "set_style" => pb.set_style(new_style.take().unwrap()),
             "set_tab_width" => pb.set_tab_width(a as usize),
             "reset" => pb.reset(),
